@@ -43,9 +43,14 @@ static bool refDecode(const std::string &s, uint64_t &t, Bytes &imprint) {
 }
 
 struct Decoded { int res; uint64_t t; Bytes imprint; };
+// the imprint decoded from the PREVIOUS accepted string is kept (as a clone, its publication data freed) while the next string is decoded on the same context: it must stay what was decoded
+static KSI_DataHash *g_kept = nullptr; static Bytes g_keptWant; static std::string g_keptProblem;
+struct KeptGuard { ~KeptGuard() { KSI_DataHash_free(g_kept); g_kept = nullptr; g_keptWant.clear(); g_keptProblem.clear(); } };
 static Decoded sdkDecode(KSI_CTX *ctx, const char *s) {
     Decoded d{KSI_UNKNOWN_ERROR, 0, {}}; KSI_PublicationData *pd = nullptr;
     d.res = KSI_PublicationData_fromBase32(ctx, s, &pd);
+    if (g_kept) { const unsigned char *kp = nullptr; size_t kl = 0; if (KSI_DataHash_getImprint(g_kept, &kp, &kl) != KSI_OK || Bytes(kp, kp + kl) != g_keptWant) g_keptProblem = "an imprint decoded earlier and still held by the caller changed when another string was decoded on the same context"; KSI_DataHash_free(g_kept); g_kept = nullptr; stats().count("held-imprint-checked-after-next-decode"); }
+    if (d.res == KSI_OK && pd) { KSI_DataHash *h0 = nullptr; KSI_PublicationData_getImprint(pd, &h0); if (h0) { const unsigned char *kp = nullptr; size_t kl = 0; if (KSI_DataHash_clone(h0, &g_kept) == KSI_OK && g_kept && KSI_DataHash_getImprint(g_kept, &kp, &kl) == KSI_OK) g_keptWant.assign(kp, kp + kl); else { KSI_DataHash_free(g_kept); g_kept = nullptr; } } }
     if (d.res == KSI_OK && pd) {
         KSI_Integer *ti = nullptr; KSI_DataHash *h = nullptr; KSI_PublicationData_getTime(pd, &ti); KSI_PublicationData_getImprint(pd, &h);
         d.t = ti ? KSI_Integer_getUInt64(ti) : 0; const unsigned char *ip = nullptr; size_t il = 0;
@@ -63,6 +68,7 @@ static void checkCandidate(Case &c, KSI_CTX *ctx, const std::string &cand, bool 
     // NUL-terminated heap copy
     HeapBuf hb(cand.size() + 1); memcpy(hb.p, cand.data(), cand.size()); hb.p[cand.size()] = 0;
     Decoded d = sdkDecode(ctx, (const char *)hb.p);
+    if (!g_keptProblem.empty()) { VF_FAIL(c, "C17:held-imprint-changed", g_keptProblem + " (while decoding '" + cand + "')"); g_keptProblem.clear(); return; }
     stats().count(std::string("candidates:") + kind);
     if (d.res == KSI_OK) {
         if (!valid) { VF_FAIL(c, std::string("C17:") + kind + ":corrupt-accepted", std::string("corrupted string accepted: '") + cand + "'"); return; }
@@ -75,7 +81,7 @@ static void checkCandidate(Case &c, KSI_CTX *ctx, const std::string &cand, bool 
 }
 
 void harness_case(Dec &d, Case &c) {
-    Ctx ctx;
+    Ctx ctx; KeptGuard keptGuard; (void)keptGuard; // declared after the context: released before it
     uint64_t t = d.boundary(kTimes, 10);
     int alg = kAlgs[d.pick(10)];
     const ref::AlgInfo *ai = ref::algInfo(alg);
